@@ -113,6 +113,9 @@ mod rrt_to;
 #[cfg(feature = "allow_filesystem")]
 mod tests;
 
+#[cfg(opw_verif)]
+pub mod verif_hooks;
+
 
 
 
